@@ -223,6 +223,22 @@ pub struct HttpHandle {
     panic_msg: Arc<Mutex<Option<String>>>,
 }
 
+/// Not a header: `(":http-version", "1.0")` among a request's headers asks for the request to be
+/// made as HTTP/1.0 (in process: the request's version field; over a socket: the request line).
+pub const VERSION_PSEUDO_HEADER: &str = ":http-version";
+/// Not a header either: `(":break-after", "<k>:<kind>")` makes the body transfer fail after `k`
+/// good chunks - in process the payload stream yields an error of that kind (0 incomplete,
+/// 1 corrupt encoding, 2 overflow, 3 unknown length, 4 i/o), over a socket the chunked framing
+/// turns to garbage at that point.
+pub const BREAK_PSEUDO_HEADER: &str = ":break-after";
+
+pub fn break_plan(r: &HttpReq) -> Option<(usize, u8)> {
+    let v = r.headers.iter().find(|(n, _)| n == BREAK_PSEUDO_HEADER)?;
+    let t = String::from_utf8_lossy(&v.1).into_owned();
+    let (a, b) = t.split_once(':')?;
+    Some((a.parse().ok()?, b.parse().ok()?))
+}
+
 pub fn build_request(r: &HttpReq) -> actix_http::Request {
     use actix_web::http::header::{HeaderName, HeaderValue};
     use actix_web::http::Method;
@@ -230,6 +246,15 @@ pub fn build_request(r: &HttpReq) -> actix_http::Request {
         .method(Method::from_bytes(r.method.as_bytes()).expect("valid method"))
         .uri(&r.path);
     for (n, v) in &r.headers {
+        if n == VERSION_PSEUDO_HEADER {
+            if v == b"1.0" {
+                t = t.version(actix_web::http::Version::HTTP_10);
+            }
+            continue;
+        }
+        if n == BREAK_PSEUDO_HEADER {
+            continue;
+        }
         let name = HeaderName::from_bytes(n.as_bytes()).expect("valid header name");
         let val = HeaderValue::from_bytes(v).expect("valid header value");
         t = t.append_header((name, val));
@@ -240,7 +265,18 @@ pub fn build_request(r: &HttpReq) -> actix_http::Request {
     } else {
         let chunks: Vec<bytes::Bytes> = r.chunks.clone();
         let stalls: Vec<u32> = r.stalls.clone();
-        let stream: actix_http::BoxedPayloadStream = if stalls.iter().all(|s| *s == 0) {
+        let stream: actix_http::BoxedPayloadStream = if let Some((after, kind)) = break_plan(r) {
+            use actix_http::error::PayloadError;
+            let mut items: Vec<Result<bytes::Bytes, PayloadError>> = chunks.into_iter().take(after).map(Ok).collect();
+            items.push(Err(match kind % 5 {
+                0 => PayloadError::Incomplete(None),
+                1 => PayloadError::EncodingCorrupted,
+                2 => PayloadError::Overflow,
+                3 => PayloadError::UnknownLength,
+                _ => PayloadError::Io(std::io::Error::new(std::io::ErrorKind::ConnectionReset, "connection reset by peer")),
+            }));
+            Box::pin(futures::stream::iter(items))
+        } else if stalls.iter().all(|s| *s == 0) {
             Box::pin(futures::stream::iter(chunks.into_iter().map(Ok::<_, actix_http::error::PayloadError>)))
         } else {
             // a slow upload: time passes (on the runtime's clock, which the caller has paused, so
@@ -850,6 +886,18 @@ impl Driver {
             Snapshot { version_id: snap.version_id, timestamp: ts, versions_since: snap.versions_since },
             data,
         )?;
+        txn.commit()?;
+        Ok(true)
+    }
+
+    /// The state between the two transactions of a first AddVersion: a client record with no
+    /// versions.  Returns false (and changes nothing) if the server already knows the client.
+    pub fn new_empty_client(&mut self, c: Uuid) -> anyhow::Result<bool> {
+        let mut txn = self.storage.txn(c)?;
+        if txn.get_client()?.is_some() {
+            return Ok(false);
+        }
+        txn.new_client(Uuid::nil())?;
         txn.commit()?;
         Ok(true)
     }
